@@ -426,7 +426,7 @@ Section Deep.
     - inversion H; subst. split; [apply alloc_post_refl|exact I].
     - inversion H as [Ha]. destruct h1 as [st1 n1]. destruct (@alloc_fresh _ _ _ _ _ _ Ha) as (Hp & Hri & _).
       split; [exact Hp|]. simpl. eapply ref_in_ok; [|exact Hri]. exact (@inv_K _ _ Hinv).
-    - destruct (nth_error (st_handles x) h) as [r0|] eqn:En; [|discriminate].
+    - destruct (nth_error (st_handles x) (N.to_nat h)) as [r0|] eqn:En; [|discriminate].
       destruct (nav (st_store x) r0 p) as [r1|] eqn:Ev; simpl in H; [|discriminate]. inversion H; subst.
       split; [apply alloc_post_refl|]. simpl. eapply nav_ok; [exact Hinv| |exact Ev].
       pose proof (@inv_handles _ _ Hinv) as Hh. rewrite Forall_forall in Hh. apply Hh. eapply nth_error_In; eauto.
@@ -435,7 +435,7 @@ Section Deep.
   Lemma step_edit_deep K x h path e : inv K x -> inv K (step_edit x h path e).
   Proof.
     intros Hinv. unfold step_edit.
-    destruct (nth_error (st_handles x) h) as [r0|] eqn:En; [|exact Hinv].
+    destruct (nth_error (st_handles x) (N.to_nat h)) as [r0|] eqn:En; [|exact Hinv].
     destruct (nav (st_store x) r0 path) as [[ty v|d c]|] eqn:Ev; try exact Hinv.
     destruct (sfind c (st_store x)) as [rs|] eqn:Ef; [|exact Hinv].
     assert (H0 : ref_ok K (st_next x) r0).
@@ -512,7 +512,7 @@ Proof. intros B ev pp h. now rewrite parse_history_invisible. Qed.
 (* ---------------------------------------------------------------- refutation for every other mode *)
 (* parse; append a child to the root of the returned tree; parse the same string again *)
 Definition pp0 : parser -> N -> result atree := fun _ _ => Ok (ATree [99]%N [ATok [75]%N [49]%N]).
-Definition witness : history := [Parse PCond 0%N; Edit 0 [] (EAppend (SJunkTok [74]%N [74]%N)); Parse PCond 0%N].
+Definition witness : history := [Parse PCond 0%N; Edit 0%N [] (EAppend (SJunkTok [74]%N [74]%N)); Parse PCond 0%N].
 
 Theorem refuted_when_shallow : forall m, m <> CopyDeep -> forall maxsize, 0 < maxsize ->
   exists pp h, parse_obs (run m maxsize pp h) <> expected pp h.
@@ -527,8 +527,8 @@ Proof. vm_compute. reflexivity. Qed.
 Definition pp1 : parser -> N -> result atree := fun _ s =>
   if N.eqb s 9 then Exn SyntaxErr else Ok (ATree [99]%N [ATree [100]%N [ATok [75]%N [s]]; ATok [75]%N [49]%N]).
 Definition history1 : history :=
-  [Parse PCond 1%N; Parse PAhb 9%N; Parse PCond 2%N; Edit 0 [0] (EReplace 0 (SSub 1 [0])); Edit 1 [] (ERemove 0);
-   Parse PCond 1%N; Edit 2 [] (EAppend (SJunkTree (ATree [1]%N []))); Peek 0; Parse PCond 2%N; Parse PCond 2%N].
+  [Parse PCond 1%N; Parse PAhb 9%N; Parse PCond 2%N; Edit 0%N [0] (EReplace 0 (SSub 1%N [0])); Edit 1%N [] (ERemove 0);
+   Parse PCond 1%N; Edit 2%N [] (EAppend (SJunkTree (ATree [1]%N []))); Peek 0%N; Parse PCond 2%N; Parse PCond 2%N].
 Example history1_evicts_and_is_fine :
   parse_obs (run CopyDeep 1 pp1 history1) = expected pp1 history1 /\
   parse_obs (run CopyShallow 2 pp1 history1) <> expected pp1 history1.
